@@ -8,6 +8,8 @@ through.
 """
 from .facts import kids, walk
 
+from .facts import AnalysisBroken as _Broken
+
 COMMUT = {'+', '*', '&&', '||', '==', '!=', '&', '|', '^'}
 
 
@@ -32,9 +34,12 @@ class LocalEnv:
         self.types = {}
         self.assigned = set()
         self.bind = {}      # (name) for structured bindings -> (decomp dloc, index)
+        self.rename = {}    # dloc -> role name: rules name locals / parameters by *role*, found structurally, never by spelling
+        self.decls = {}     # dloc -> VarDecl node
         for n in fn.nodes():
             k = n.get('k')
             if k == 'VarDecl':
+                self.decls[n['loc']] = n
                 self.names[n['loc']] = n['name']
                 self.types[n['loc']] = n.get('t')
                 if isinstance(n.get('init'), dict):
@@ -55,6 +60,50 @@ class LocalEnv:
                 c = n.get('c') or []
                 if len(c) > 1 and c[1].get('k') == 'DeclRefExpr':
                     self.assigned.add(c[1].get('dloc'))
+
+    # ---- roles ---------------------------------------------------------------
+    def param_roles(self, roles):
+        """name the parameters positionally (None = keep)."""
+        ps = self.fn.get('params') or []
+        if len(ps) < len([r for r in roles if r]):
+            raise _Broken('%s: expected at least %d parameters' % (self.fn.id, len(roles)))
+        for p, r in zip(ps, roles):
+            if r:
+                self.rename[p['loc']] = r
+
+    def local_role(self, role, pred, optional=False, many=False):
+        """give `role` to the unique local whose (VarDecl node, unsubstituted canonical initialiser) satisfies pred."""
+        hits = []
+        for d, n in self.decls.items():
+            init = canon(n['init'], self, subst=False) if isinstance(n.get('init'), dict) else None
+            try:
+                ok = pred(n, init)
+            except (IndexError, TypeError, KeyError):
+                ok = False
+            if ok:
+                hits.append(d)
+        if many:
+            for d in hits:
+                self.rename[d] = role
+            return hits
+        if len(hits) != 1:
+            if optional and not hits:
+                return None
+            raise _Broken('%s: expected exactly one local in the role "%s", found %d' % (self.fn.id, role, len(hits)))
+        self.rename[hits[0]] = role
+        return hits[0]
+
+    def decl_of(self, role):
+        for d, r in self.rename.items():
+            if r == role and d in self.decls:
+                return self.decls[d]
+        return None
+
+    def init_of(self, role, subst=False):
+        n = self.decl_of(role)
+        if n is None or not isinstance(n.get('init'), dict):
+            return None
+        return canon(n['init'], self, subst=subst)
 
     def definition(self, ref):
         d = ref.get('dloc')
@@ -101,6 +150,8 @@ def canon(n, env=None, depth=0, subst=True):
             return n['ref'].rsplit('::', 1)[-1]
         if n.get('refk') in ('Function', 'CXXMethod'):
             return ('fn', n.get('ref'))
+        if env is not None and env.rename:
+            return env.rename.get(n.get('dloc'), n.get('ref'))
         return n.get('ref')
     if k == 'MemberExpr':
         base = c[0] if c else None
